@@ -58,9 +58,13 @@ func runC16CLI(ctx *Ctx) {
 	r := ctx.R
 	nb := 2 + r.Intn(6)
 	in := &c16CLIInput{Rows: (nb-1)*255 + 1 + r.Intn(255), Workers: 1 + r.Intn(8), Procs: []int{1, 2, 4, 16}[r.Intn(4)]}
-	in.FailAt = r.Intn(2*nb + 3)
-	if r.Intn(5) == 0 {
+	// mostly after the first block has been saved completely (two writes), sometimes before, sometimes never
+	in.FailAt = 2 + r.Intn(2*nb+1)
+	switch r.Intn(6) {
+	case 0:
 		in.FailAt = -1
+	case 1:
+		in.FailAt = r.Intn(2)
 	}
 	ctx.Emit("ingest-cli", in, c16CLIRun(in), true, "cli")
 }
